@@ -21,7 +21,7 @@ inductive Res (α : Type) where
   | ok (a : α)
   | err (k : ErrKind)
   | panic (why : String)
-  deriving Repr
+  deriving Repr, DecidableEq
 
 namespace Res
 
